@@ -3,7 +3,7 @@
    concurrent model (TxRegulator), the contract and the conformance checks (TxTrace).
 
    Serial:  1 tick = 0.1 ms, 1 unit = 1e-4 bit.  Rate = units per tick, Cap = bucket capacity.
-   MQTT:    milli-tokens; maxtok = MAX_TRANSMIT_RATE_TOKENS * 1000 per window of `win` seconds.   *)
+   MQTT:    n = MAX_TRANSMIT_RATE_TOKENS per window of `win` seconds; token units see below.     *)
 EXTENDS Integers
 
 CONSTANTS Rate, Cap
@@ -12,22 +12,24 @@ Min(a, b) == IF a < b THEN a ELSE b
 Max(a, b) == IF a > b THEN a ELSE b
 CeilDiv(a, b) == (a + b - 1) \div b
 
-(* elapsed ticks, clipped at one full refill (+1) so that products stay below 2^31 *)
-Clip(dt) == Min(dt, CeilDiv(Cap, Rate) + 1)
+(* refill of a bucket at level b <= Cap (possibly in debt) over dt ticks, without ever forming a
+   product above Cap - b + Rate (32-bit safe while the debt stays below ~1.9e9 units)              *)
+Refill(b, dt) == IF dt >= CeilDiv(Cap - b, Rate) THEN Cap ELSE b + dt * Rate
 
 (* limit_duty_cycle.wrapper: bits_in_bucket = min(bits_in_bucket + elapsed * FILL_RATE, BUCKET_CAPACITY) *)
-TopUp(b, last, t)   == Min(b + Clip(t - last) * Rate, Cap)
+TopUp(b, last, t)   == Refill(b, t - last)
 (* ... if bits_in_bucket < rf_frame_size: sleep((rf_frame_size - bits_in_bucket) / FILL_RATE) *)
 SleepTicks(b, size) == IF b < size THEN CeilDiv(size - b, Rate) ELSE 0
 
 (* the contract's own (shadow) bucket: recomputed from write events only *)
-ShadowAfter(s, lastw, t, size) == Min(s + Clip(t - lastw) * Rate, Cap) - size
+ShadowAfter(s, lastw, t, size) == Refill(s, t - lastw) - size
 
-(* MqttTransport.write_frame *)
-TokPerSec(maxtok, win) == maxtok \div win
-TokRefill(maxtok, win, dt) == (Min(dt, 2 * win * 10000 + 1) * TokPerSec(maxtok, win)) \div 10000
-TokTopUp(tok, mx, maxtok, win, dt) == Min(tok + TokRefill(maxtok, win, dt), mx)
-TokDrops(tok, maxtok, win) == tok < 1000 - TokPerSec(maxtok, win)        \* "would have to sleep >= 1 second"
-TokNewMax(mx, tokAfter, maxtok) == IF mx > maxtok THEN Max(Min(mx, tokAfter), maxtok) ELSE mx
-TokSleepTicks(tokAfter, maxtok, win) == IF tokAfter < 0 THEN CeilDiv((0 - tokAfter) * 10000, TokPerSec(maxtok, win)) ELSE 0
+(* MqttTransport.write_frame.  Exact integer units: one token = win * 10000 units (the number of
+   ticks in the window), so that the refill rate  n tokens per window  is exactly n units per tick. *)
+OneTok(win) == win * 10000
+TokRefill(n, win, dt) == Min(dt, 2 * win * 10000 + 1) * n
+TokTopUp(tok, mx, n, win, dt) == Min(tok + TokRefill(n, win, dt), mx)
+TokDrops(tok, n, win) == tok < OneTok(win) - n * 10000                 \* "num_tokens < 1.0 - TOKEN_RATE": would sleep >= 1 s
+TokNewMax(mx, tokAfter, n, win) == IF mx > n * OneTok(win) THEN Max(Min(mx, tokAfter), n * OneTok(win)) ELSE mx
+TokSleepTicks(tokAfter, n) == IF tokAfter < 0 THEN CeilDiv(0 - tokAfter, n) ELSE 0
 =============================================================================
